@@ -124,7 +124,7 @@ func oneRun(c *hx.Ctx, k int, r *rand.Rand, proto string, nclients int, stopDuri
 		}
 	})
 	if err != nil {
-		c.Inconclusive("collector: " + err.Error())
+		fail("collector-did-not-start", err.Error(), nil)
 		return 0
 	}
 	addr := coll.Addr()
